@@ -365,7 +365,17 @@ func rulesC12(w *World, r *Report) {
 		o.Trivial = len(writes[g]) == 0
 	}
 	r.role("package-level variables", gnames)
-	r.floor("C12.R1 package-level variables", len(globals), 10)
+	// the floor counts the variables that can carry shared state (maps, slices,
+	// pointers, interfaces, structs): a scalar such as a chunk size kept in a var
+	// for the initialiser of a table is configuration, and a refactoring may fold
+	// it into a constant.  Every variable, scalar or not, still gets its obligation.
+	stateful := 0
+	for _, g := range globals {
+		if _, basic := g.Type().(*types.Pointer).Elem().Underlying().(*types.Basic); !basic {
+			stateful++
+		}
+	}
+	r.floor("C12.R1 package-level variables holding shared state", stateful, 9)
 
 	// R2 shared maps
 	w.ruleSharedMaps(r, "C12.R2 shared maps written only on a lookup miss")
